@@ -14,6 +14,9 @@ _ids = itertools.count()
 
 
 def gen_case(rng):
+    if rng.random() < 0.2:
+        times = rng.sample([1, 2, 3, 4, 5, 6], 4)
+        return {'kind': 'lagclock', 'mode': 'simulate', 'times': times, 'ts': rng.choice([1.0, 1.0, 2.0])}
     if rng.random() < 0.25:
         t1, t2 = sorted(rng.sample([1, 2, 3, 4, 5], 2))
         return {'kind': 'lagclock', 'mode': 'respec', 'times': [t1, t2], 'reversed': rng.random() < 0.5,
@@ -33,7 +36,10 @@ def corpus():
             {'kind': 'lagclock', 'mode': 'refeed', 'ts': 1.0, 'total': 10, 'feeds': [2, 5, 8]},
             # one timeline specification (dictionary values holding dictionaries) used for two simulations in a row,
             # the variable being changed in place in between
-            {'kind': 'lagclock', 'mode': 'respec', 'times': [1, 4], 'reversed': True, 'levels': [50, 0], 'total': 7}]
+            {'kind': 'lagclock', 'mode': 'respec', 'times': [1, 4], 'reversed': True, 'levels': [50, 0], 'total': 7},
+            # a timeline handed to the composition helper simulate_process(), its events listed out of order: the
+            # run lasts until the latest event time whatever the listing order
+            {'kind': 'lagclock', 'mode': 'simulate', 'times': [6, 1, 4, 2], 'ts': 1.0}]
 
 
 def run_impl(case):
@@ -71,6 +77,29 @@ def run_impl(case):
                 clocks.append([forced, float(eng.global_time), float(st['global']['time']),
                                {k: v for k, v in st['vars'].items()}])
             obs['clocks'] = clocks
+        elif case['mode'] == 'simulate':
+            import warnings
+            with warnings.catch_warnings():
+                warnings.simplefilter('ignore')
+                from vivarium.core.composition import simulate_process
+            times = case['times']
+
+            class Box(Process):
+                defaults = {'time_step': 1.0}
+
+                def ports_schema(self):
+                    return {'box': {f'v{i}': {'_default': 0, '_updater': 'set', '_emit': True}
+                                    for i in range(len(times))}}
+
+                def next_update(self, timestep, states):
+                    return {}
+            events = [(t, {('box', f'v{i}'): 10 + i}) for i, t in enumerate(times)]
+            with warnings.catch_warnings():
+                warnings.simplefilter('ignore')
+                out = simulate_process(Box(), {'timeline': {'timeline': events, 'time_step': case['ts']},
+                                               'display_info': False, 'progress_bar': False})
+            obs['time'] = [float(t) for t in out['time']]
+            obs['final'] = {k: v[-1] for k, v in out['box'].items()}
         elif case['mode'] == 'respec':
             import copy
 
@@ -152,6 +181,20 @@ def oracle(case, impl):
         for i, t in enumerate(case['events']):
             if t <= gt - case['ts'] and vars_.get(f'e{i}') != i + 1:
                 return [f'fire-once: the event at {t} has not fired by t={gt} (variable e{i} = {vars_.get(f"e{i}")})']
+        return []
+    if case['mode'] == 'simulate':
+        last = float(max(case['times']))
+        if not impl['time'] or impl['time'][-1] != last:
+            return [f'run-length: events at {case["times"]} (in this listing order) handed to simulate_process(): the '
+                    f'run ends at {impl["time"][-1] if impl["time"] else None}, the latest event time is {last}']
+        # every event whose tick started before the end of the run has fired (an event due at t is applied at the
+        # end of the tick that starts at the first tick boundary >= t)
+        ts = case['ts']
+        for i, t in enumerate(case['times']):
+            start = t if (t / ts) == int(t / ts) else (int(t / ts) + 1) * ts
+            if start + ts <= last and impl['final'].get(f'v{i}') != 10 + i:
+                return [f'fire-once: the event at {t} (listing position {i}) has not fired by the end of the run at '
+                        f'{last}: v{i} = {impl["final"].get(f"v{i}")}']
         return []
     if case['mode'] == 'respec':
         # the tuner (listed first) adds one per tick; an event due at t is applied at the end of the tick starting at t
